@@ -1,5 +1,11 @@
 ---- MODULE Dbg ----
-EXTENDS Trace_VarScope
-D1 == LET r == Rec[1] IN PrintT(<<"cfg", Cfg(r), R424(Cfg(r)), R423(Cfg(r))>>)
-ASSUME D1
+EXTENDS Wide, TLC
+A == Mul(FromNat(193, 128), Shl(FromNat(1, 128), 120))
+B == FromNat(7, 128)
+T1 == PrintT(<<"start", JavaTime>>)
+T2 == PrintT(<<"udiv", UDiv(A, B), JavaTime>>)
+T3 == PrintT(<<"mul", Mul(A, A), JavaTime>>)
+T4 == PrintT(<<"add", Add(A, A), JavaTime>>)
+T5 == PrintT(<<"sdiv", SDiv(A, B), JavaTime>>)
+ASSUME T1 /\ T2 /\ T3 /\ T4 /\ T5
 ====
